@@ -30,7 +30,10 @@ PROPS = {
     "C04": dict(pkg=LIVESIM, hdir="livesim", files=["common", "c04"], race=False, tmo=(600, 3600)),
     "C05": dict(pkg=LIVESIM, hdir="livesim", files=["common", "c05"], race=False, tmo=(600, 3600)),
     "C06": dict(pkg=LIVESIM, hdir="livesim", files=["common", "c06"], race=False, tmo=(600, 3600)),
-    "C07": dict(pkg=LIVESIM, hdir="livesim", files=["common", "c07"], race=True, resume=True, tmo=(900, 3600)),
+    # C07 extra units: the same collision-prone request table answered by two separate processes in opposite orders
+    "C07": dict(pkg=LIVESIM, hdir="livesim", files=["common", "c07"], race=True, resume=True, tmo=(900, 3600),
+                extra=[dict(pkg=LIVESIM, hdir="livesim", files=["common", "c07"], test="TestVerifC07X", env=dict(VERIF_C07X_ORDER="fwd")),
+                       dict(pkg=LIVESIM, hdir="livesim", files=["common", "c07"], test="TestVerifC07X", env=dict(VERIF_C07X_ORDER="rev"))]),
     "C08": dict(pkg=LIVESIM, hdir="livesim", files=["common", "c08"], race=False, resume=True, tmo=(900, 3600),
                 extra=[dict(pkg=RECV, hdir="receiver", files=["common", "c08r"], test="TestVerifC08R"),
                        dict(pkg="pkg/chunkparser", hdir="chunkparser", files=["common", "c08p"], test="TestVerifC08P")]),
@@ -216,7 +219,7 @@ def merge(acc, snap):
     acc["complete"] = acc["complete"] and snap.get("complete", False)
 
 
-def run_unit(w, binpath, pkg, test, pid, tier, seed, tmo, resume_ok, acc, replay=None, tag="m"):
+def run_unit(w, binpath, pkg, test, pid, tier, seed, tmo, resume_ok, acc, replay=None, tag="m", uenv=None):
     """run one monitor binary (restarting after crashes); merge its snapshots into acc."""
     resume = 0
     deaths = 0
@@ -232,6 +235,7 @@ def run_unit(w, binpath, pkg, test, pid, tier, seed, tmo, resume_ok, acc, replay
                    VERIF_RESUME=str(resume), VERIF_REPO=REPO, VERIF_DIR=VERIF, VERIF_SCRATCH=w,
                    GORACE="halt_on_error=0 log_path=%s/race" % w)
         env["VERIF_ERRFILE"] = errf
+        env.update(uenv or {})
         if replay:
             env["VERIF_REPLAY"] = replay
         cmd = ["timeout", "-s", "QUIT", str(tmo), binpath, "-test.run", "^%s$" % test, "-test.timeout", "0", "-test.v"]
@@ -384,7 +388,7 @@ def check(pid, tier, seed, replay):
             bins.append(b)
         tmo = P["tmo"][0 if tier == "quick" else 1]
         for i, (u, b) in enumerate(zip(units, bins)):
-            ok = run_unit(w, b, u["pkg"], u["test"], pid, tier, seed, tmo, P.get("resume", False), acc, replay, tag="u%d" % i)
+            ok = run_unit(w, b, u["pkg"], u["test"], pid, tier, seed, tmo, P.get("resume", False), acc, replay, tag="u%d" % i, uenv=u.get("env"))
         races = parse_races(w) if P.get("race") else []
         for r in races:
             a = acc["violations"].setdefault(r["sig"], dict(sig=r["sig"], count=0, examples=[]))
